@@ -383,6 +383,10 @@ def roundtrip_failures(n, seed, limit=3):
     refusals = {
         'no variances': sc.DataArray(sc.values(base.data), coords=dict(base.coords)),
         'bin edges': sc.DataArray(base.data, coords={'x': sc.array(dims=['x'], values=[0.0, 1.0, 2.0])}),
+        'bin edges, a single row': sc.DataArray(sc.array(dims=['x'], values=[1.0], variances=[1.0]), coords={'x': sc.array(dims=['x'], values=[0.0, 1.0])}),
+        'bin edges, a single row, other coordinates present': sc.DataArray(sc.array(dims=['x'], values=[1.0], variances=[1.0]),
+                                                                            coords={'x': sc.array(dims=['x'], values=[0.0, 1.0]), 'y': sc.array(dims=['x'], values=[5.0])}),
+        'bin edges, five rows': sc.DataArray(sc.array(dims=['x'], values=[1.0] * 5, variances=[1.0] * 5), coords={'x': sc.array(dims=['x'], values=[0.0, 1.0, 2.0, 3.0, 4.0, 5.0])}),
         'mask': sc.DataArray(base.data, coords=dict(base.coords), masks={'m': sc.array(dims=['x'], values=[True, False])}),
         '2-d': sc.DataArray(sc.array(dims=['x', 'y'], values=[[1.0]], variances=[[1.0]]), coords={'x': sc.array(dims=['x'], values=[0.0])}),
         'no coordinate': sc.DataArray(base.data),
